@@ -1,4 +1,6 @@
 """C05: export followed by import reproduces every object exactly, on both transports."""
+import os
+
 import vbuild
 import vcheck
 from vcheck import Job
@@ -10,10 +12,29 @@ RULE = ("cell = (object kind [15 exporter/importer pairs over 12 object types], 
         "under the original and the re-imported cloud key; re-imported secret key gives identical phases and bits")
 
 
+def comma_locale():
+    """LOCPATH directory holding the decimal-comma C locale xx_COMMA (built with localedef; None if that is not possible)"""
+    import importlib.util
+    spec = importlib.util.spec_from_file_location("mklocale", os.path.join(vbuild.VERIF, "harness", "c05", "mklocale.py"))
+    m = importlib.util.module_from_spec(spec)
+    spec.loader.exec_module(m)
+    try:
+        return m.build(os.path.join(vbuild.build_dir(), "locale"))
+    except Exception:
+        return None
+
+
 def run(tier, seed, t0):
     thorough = tier == "thorough"
     jobs = []
     reps = 60 if thorough else 16
+    lp = comma_locale()
+    if lp:   # the same round trips in a process whose C locale has a decimal comma and digit grouping
+        cl = {"LOCPATH": lp}
+        jobs.append(Job("single-clocale", "drv_c05", "optim", "spqlios-fma", ["--mode", "single", "--reps", reps // 2, "--seed", seed + 40, "--clocale", "xx_COMMA"], timeout=1800, env=cl))
+        jobs.append(Job("sequence-clocale", "drv_c05", "optim", "nayuki-portable", ["--mode", "sequence", "--reps", 60 if thorough else 20, "--seed", seed + 41, "--clocale", "xx_COMMA", "--locale", 1], timeout=1800, env=cl))
+        jobs.append(Job("functional-small-clocale", "drv_c05", "optim", "spqlios-fma", ["--mode", "functional", "--lambda", 0, "--seed", seed + 42, "--clocale", "xx_COMMA"], timeout=1800, env=cl))
+        jobs.append(Job("single-clocale-debug", "drv_c05", "debug", "fftw", ["--mode", "single", "--reps", 4, "--seed", seed + 43, "--clocale", "xx_COMMA"], timeout=1800, env=cl))
     for i in range(4):
         jobs.append(Job("single-%d" % i, "drv_c05", "optim", "spqlios-fma", ["--mode", "single", "--reps", reps, "--seed", seed, "--shard", i, "--locale", i % 2], timeout=1800))
     for i in range(2):
